@@ -76,6 +76,7 @@ fn shape_for(prop: &str, i: usize) -> Shape {
             s.p_batch = 8;
             s.p_zst = [0, 100, 50, 0][v];
             s.tl_in_batch = v == 2;
+            s.p_nest = [0, 0, 0, 12][v];
             if v == 2 {
                 s.p_batch = 25;
             }
